@@ -59,7 +59,9 @@ func (d h08Dev) text() string {
 	case "type":
 		body = " type int8;"
 	case "badtype":
-		body = " type nosuch;"
+		// a replacement type that cannot be resolved: at once (unknown name, unknown prefix) or
+		// only after its base was found (unknown union member, missing identity, bad restriction)
+		body = []string{" type nosuch;", " type union { type string; type nosuch; }", " type identityref { base nosuch; }", ` type int8 { range "5..1"; }`, " type zz:t;"}[d.nval]
 	}
 	if d.kind == "not-supported" {
 		return "deviate not-supported; "
@@ -87,6 +89,8 @@ func h08Draw() h08Dev {
 		d.bval = symChoice(2) == 1
 	case "min", "max":
 		d.nval = []uint64{1, 5}[symChoice(2)]
+	case "badtype":
+		d.nval = uint64(symChoice(5))
 	}
 	return d
 }
